@@ -5,6 +5,7 @@ package main
 // table ownership and schema facts.
 
 import (
+	"os"
 	"fmt"
 	"go/ast"
 	"go/token"
@@ -296,6 +297,10 @@ func (b *backend) valueClass(h *handler, env *localEnv, e ast.Expr) string {
 	case *ast.Ident:
 		obj := info.Uses[x]
 		defs := env.defs[obj]
+		// a value handed back by a single-return helper of the package (extracted scan loop)
+		if sub, re, ok := env.helperResult(x); ok {
+			return b.valueClass(h, sub, re)
+		}
 		// rowsAffected, err := res.RowsAffected()  with  res, err := stmt.Exec(…)
 		if len(defs) == 1 {
 			if as, ok := defs[0].(*ast.AssignStmt); ok && len(as.Rhs) == 1 {
@@ -738,6 +743,11 @@ func ruleExecute(c *Ctx) {
 // errEdgeFacts: when a block ends in `err != nil` (or ==) and err was last assigned in that block
 // from a call named by name(call), the true/false edges carry failed:<name> / ok:<name>.
 func errEdgeFacts(info *types.Info, name func(*ast.CallExpr) string) func(b *cfg.Block, i int) []string {
+	return errEdgeFactsT(info, name, isErrorType)
+}
+
+// errEdgeFactsT: as errEdgeFacts, for error-like results of any accepted type (*api.Error).
+func errEdgeFactsT(info *types.Info, name func(*ast.CallExpr) string, accept func(types.Type) bool) func(b *cfg.Block, i int) []string {
 	return func(b *cfg.Block, i int) []string {
 		if len(b.Succs) != 2 || len(b.Nodes) == 0 {
 			return nil
@@ -747,7 +757,7 @@ func errEdgeFacts(info *types.Info, name func(*ast.CallExpr) string) func(b *cfg
 			return nil
 		}
 		obj, nonNil, ok := nilTest(info, cond)
-		if !ok || !isErrorType(obj.Type()) {
+		if !ok || !accept(obj.Type()) {
 			return nil
 		}
 		// last assignment of obj in this block
@@ -888,105 +898,131 @@ func ruleStoreProcess(c *Ctx) {
 	}
 	ik, _ := fan.Key.(*ast.Ident)
 	iv, _ := fan.Value.(*ast.Ident)
-	// every CQE literal of the function is inside the fan-out loop (so after Execute returned)
-	nCQE := 0
-	okInside := true
-	var cqeLit *ast.CompositeLit
+	if ik == nil || iv == nil {
+		c.und("store.Process/fan-out", fan.Pos(), "fan-out loop has no index/value")
+		return
+	}
+	// no completion is built before Execute returned: every CQE literal of the function, and every
+	// call of a helper that builds one, lies inside the fan-out loop
+	isCQE := func(t types.Type) bool { return isNamed(t, pkgBus, "CQE") }
+	okInside, nCQE := true, 0
 	ast.Inspect(fd.Body, func(n ast.Node) bool {
-		cl, ok := n.(*ast.CompositeLit)
+		e, ok := n.(ast.Expr)
 		if !ok {
 			return true
 		}
-		if tv, ok := info.Types[cl]; ok && isNamed(tv.Type, pkgBus, "CQE") {
+		built := false
+		switch x := e.(type) {
+		case *ast.CompositeLit:
+			if tv, ok := info.Types[x]; ok && isCQE(tv.Type) {
+				built = true
+			}
+		case *ast.CallExpr:
+			if tv, ok := info.Types[x]; ok && isCQE(tv.Type) {
+				if fn, ok := calleeOf(info, x).(*types.Func); ok && fn.Pkg() == pk.Types {
+					built = true
+				}
+			}
+		}
+		if built {
 			nCQE++
-			cqeLit = cl
-			if cl.Pos() < fan.Body.Pos() || cl.End() > fan.Body.End() {
+			if e.Pos() < fan.Body.Pos() || e.End() > fan.Body.End() {
 				okInside = false
 			}
 		}
 		return true
 	})
-	c.check(nCQE == 1 && okInside, "store.Process/completion-after-execute", fan.Pos(), "completions are built only after Execute returned", "a completion is constructed outside the loop that follows Execute")
-	if cqeLit == nil || ik == nil || iv == nil {
-		c.und("store.Process/fan-out", fan.Pos(), "fan-out loop has no index/value or no CQE literal")
+	c.check(nCQE >= 1 && okInside, "store.Process/completion-after-execute", fan.Pos(), "completions are built only after Execute returned", "a completion is constructed outside the loop that follows Execute")
+	// the slice the completions are appended to is the one returned
+	var sliceObj types.Object
+	if n := len(fd.Body.List); n > 0 {
+		if rs, ok := fd.Body.List[n-1].(*ast.ReturnStmt); ok && len(rs.Results) == 1 {
+			if id, ok := ast.Unparen(rs.Results[0]).(*ast.Ident); ok {
+				sliceObj = info.Uses[id]
+			}
+		}
+	}
+	if sliceObj == nil {
+		c.und("store.Process/fan-out", fan.Pos(), "the returned completion slice is not a variable")
 		return
 	}
-	okCb := false
-	for _, el := range cqeLit.Elts {
-		if kv, ok := el.(*ast.KeyValueExpr); ok && exprString(kv.Key) == "Callback" {
-			if se, ok := ast.Unparen(kv.Value).(*ast.SelectorExpr); ok && se.Sel.Name == "Callback" && mentions(info, se.X, info.Defs[iv]) {
-				okCb = true
+	// every path through one iteration appends exactly one completion: on the paths where Execute
+	// failed it carries the submission's id and callback and the error, and no results; on the
+	// others the id, the callback and a store completion with the submission's tags and results[i]
+	env := newProvEnv(pk, fd)
+	env.sym = map[types.Object]string{info.Defs[iv]: "$sqe", info.Defs[ik]: "$i", errObj: "$err", resObj: "$results"}
+	body := continueToReturn(fan.Body)
+	g := cfg.New(body, func(*ast.CallExpr) bool { return true })
+	paths, complete := enumPathsX(g, env.condFormula, nil, nil, 256)
+	if !complete || len(paths) == 0 {
+		c.und("store.Process/fan-out", fan.Pos(), "paths through the fan-out loop body could not be enumerated")
+		return
+	}
+	// the loop variables, Execute's results and its error are kept symbolic (helpers that build
+	// the completion are inlined with their parameters substituted by these symbols)
+	sv, errV, resIdx := "$sqe", "$err", "$results[$i]"
+	wantFail := builtObject{"Id": sv + ".Id", "Callback": sv + ".Callback", "Error": errV}
+	okOne, okErr, okRes, okCb := true, true, true, true
+	nFail, nOK := 0, 0
+	var found []string
+	for _, p := range paths {
+		atoms, _, contra := decompose(p.Facts)
+		if contra {
+			continue
+		}
+		failed, known := false, false
+		if os.Getenv("RESOLINT_DEBUG") != "" {
+			fmt.Fprintf(os.Stderr, "fanout path atoms=%v\n", atoms)
+		}
+		for a, v := range atoms {
+			switch a {
+			case "(" + errV + " != nil)":
+				failed, known = v, true
+			case "(" + errV + " == nil)":
+				failed, known = !v, true
+			}
+		}
+		objs, understood := appendedOnPath(pk, env, p, sliceObj, isCQE)
+		if !understood || len(objs) != 1 {
+			okOne = false
+			found = append(found, fmt.Sprintf("%d completions on a path", len(objs)))
+			continue
+		}
+		o := objs[0]
+		found = append(found, o.String())
+		if o["Callback"] != wantFail["Callback"] || o["Id"] != wantFail["Id"] {
+			okCb = false
+		}
+		if !known {
+			okErr = false // a completion that does not depend on Execute's outcome
+			continue
+		}
+		if failed {
+			nFail++
+			if o["Error"] != wantFail["Error"] || o["Completion"] != "" {
+				okErr = false
+			}
+		} else {
+			nOK++
+			comp := o["Completion"]
+			if o["Error"] != "" || !strings.Contains(comp, "Kind:Store") || !strings.Contains(comp, "Tags:"+sv+".Submission.Tags") {
+				okErr = false
+			}
+			if !strings.Contains(comp, "Results:"+resIdx+"}") {
+				okRes = false
 			}
 		}
 	}
-	c.check(okCb, "store.Process/callback", cqeLit.Pos(), "completion i carries the callback of submission i", "the completion does not carry the callback of its own SQE")
-	// if err != nil { cqe.Error = err } else { cqe.Completion = …Results: results[i] }
-	okBranch, okIdx := false, false
-	for _, st := range fan.Body.List {
-		ifs, ok := st.(*ast.IfStmt)
-		if !ok {
-			continue
-		}
-		obj, nonNil, ok := nilTest(info, ifs.Cond)
-		if !ok || obj != errObj {
-			continue
-		}
-		errBr, okBr := ast.Node(ifs.Body), ifs.Else
-		if !nonNil {
-			errBr, okBr = ifs.Else, ast.Stmt(ifs.Body)
-		}
-		if errBr == nil || okBr == nil {
-			continue
-		}
-		setsErr, setsCompInErr := false, false
-		ast.Inspect(errBr, func(n ast.Node) bool {
-			if as, ok := n.(*ast.AssignStmt); ok {
-				if se, ok := as.Lhs[0].(*ast.SelectorExpr); ok {
-					if se.Sel.Name == "Error" && mentions(info, as.Rhs[0], errObj) {
-						setsErr = true
-					}
-					if se.Sel.Name == "Completion" {
-						setsCompInErr = true
-					}
-				}
-			}
-			return true
-		})
-		setsComp := false
-		ast.Inspect(okBr, func(n ast.Node) bool {
-			if as, ok := n.(*ast.AssignStmt); ok {
-				if se, ok := as.Lhs[0].(*ast.SelectorExpr); ok && se.Sel.Name == "Completion" {
-					setsComp = true
-					ast.Inspect(as.Rhs[0], func(x ast.Node) bool {
-						if kv, ok := x.(*ast.KeyValueExpr); ok && exprString(kv.Key) == "Results" {
-							if ix, ok := ast.Unparen(kv.Value).(*ast.IndexExpr); ok {
-								if rid, ok := ast.Unparen(ix.X).(*ast.Ident); ok && info.Uses[rid] == resObj {
-									if iid, ok := ast.Unparen(ix.Index).(*ast.Ident); ok && info.Uses[iid] == info.Defs[ik] {
-										okIdx = true
-									}
-								}
-							}
-						}
-						return true
-					})
-				}
-			}
-			return true
-		})
-		okBranch = setsErr && setsComp && !setsCompInErr
-	}
-	c.check(okBranch, "store.Process/error-to-all", fan.Pos(), "one Execute error fails every submission of the batch; results are attached only when err == nil", "the fan-out does not attach the error to every SQE of a failed batch / attaches results although Execute failed")
-	c.check(okIdx, "store.Process/result-index", fan.Pos(), "submission i receives results[i]", "a submission does not receive results[i] of its own transaction")
-	// the cqe is appended unconditionally and the slice returned
-	okAppend := false
-	for _, st := range fan.Body.List {
-		if as, ok := st.(*ast.AssignStmt); ok && len(as.Rhs) == 1 {
-			if call, ok := ast.Unparen(as.Rhs[0]).(*ast.CallExpr); ok && exprString(call.Fun) == "append" && len(call.Args) == 2 {
-				okAppend = true
-			}
+	sort.Strings(found)
+	o1 := c.check(okOne, "store.Process/one-completion-per-submission", fan.Pos(), "each SQE yields exactly one CQE on every path", "some path through the fan-out loop appends no completion or more than one for a submission")
+	o2 := c.check(okCb, "store.Process/callback", fan.Pos(), "completion i carries the id and callback of submission i", "the completion does not carry the id / callback of its own SQE")
+	o3 := c.check(okErr && nFail >= 1 && nOK >= 1, "store.Process/error-to-all", fan.Pos(), "one Execute error fails every submission of the batch; results are attached only when err == nil", "the fan-out does not attach the error to every SQE of a failed batch / attaches results although Execute failed")
+	o4 := c.check(okRes && nOK >= 1, "store.Process/result-index", fan.Pos(), "submission i receives results[i]", "a submission does not receive results[i] of its own transaction")
+	for _, o := range []*Obl{o1, o2, o3, o4} {
+		if o.Verdict != Discharged {
+			o.Found = strings.Join(found, " ; ")
 		}
 	}
-	c.check(okAppend, "store.Process/one-completion-per-submission", fan.Pos(), "each SQE yields exactly one CQE", "the completion is not appended unconditionally once per SQE")
 }
 
 // ---- R3: SQL origin ----
